@@ -750,12 +750,16 @@ func parseSettingsFrame(_ *frameCache, fh FrameHeader, countError func(string), 
 		return nil, ConnectionError(ErrCodeFrameSize)
 	}
 	f := &SettingsFrame{FrameHeader: fh, p: p}
-	if v, ok := f.Value(SettingInitialWindowSize); ok && v > (1<<31)-1 {
-		countError("frame_settings_window_size_too_big")
-		// Values above the maximum flow control window size of 2^31 - 1 MUST
-		// be treated as a connection error (Section 5.4.1) of type
-		// FLOW_CONTROL_ERROR.
-		return nil, ConnectionError(ErrCodeFlowControl)
+	// Check every occurrence: Value reports only the first one, but a
+	// SETTINGS frame may repeat a parameter and the last value wins.
+	for i := 0; i < f.NumSettings(); i++ {
+		if s := f.Setting(i); s.ID == SettingInitialWindowSize && s.Val > (1<<31)-1 {
+			countError("frame_settings_window_size_too_big")
+			// Values above the maximum flow control window size of 2^31 - 1 MUST
+			// be treated as a connection error (Section 5.4.1) of type
+			// FLOW_CONTROL_ERROR.
+			return nil, ConnectionError(ErrCodeFlowControl)
+		}
 	}
 	return f, nil
 }
